@@ -158,7 +158,40 @@ def rule_d(ctx):
         ctx.check(not bad, rid, "wait<%s>:closed-arm-nonblocking" % exf_of(w.name), "wait()'s closed arm calls only the non-blocking pending()", w.span, bad)
 
 
+def rule_e(ctx):
+    """close() = set flag, then write ONE wake-up byte. A drain can swallow that byte, so after every drain the flag must be looked at
+    again before the consumer may block/park in the readiness callback."""
+    F = ctx.F
+    rid = "C11.e"
+    ctx.rule(rid, "on every path from a drain of the self-pipe to the (possibly blocking) readiness callback the closed flag is re-checked", floor=3)
+    recv_users = {i.id for i in F.inst if i.local and i.body is not None and i.crate == "signal_hook" and call_sites(F, i, foreign("recv"))}
+    if not recv_users:
+        raise AnchorLost("drain primitive")
+    drains_memo = {}
+
+    def drains(fid):
+        if fid not in drains_memo:
+            drains_memo[fid] = bool(set(F.reach([F.inst[fid]])) & recv_users)
+        return drains_memo[fid]
+    fns = poll_signals(F) + insts(F, r"^signal_hook::iterator::backend::SignalDelivery::<.*>::poll_pending::<", "poll_pending", 1)
+    for m in fns:
+        ctx.fn(m)
+        cbs = [bb for bb, t in callback_calls(F, m)] + [bb for (bb, t, c, ai) in delegating_calls(F, m)]
+        dr = [bb for bb, t in m.calls() if t.get("f") is not None and F.inst[t["f"]].local and drains(t["f"]) and bb not in cbs]
+        chk = [bb for bb, t in m.calls() if (t.get("def") or "").endswith("Handle::is_closed")]
+        bad = []
+        for d in dr:
+            r = cfg.reachable_after(m, d, avoid=set(chk), unwind=False, labels=["ret"])
+            hit = sorted(r & set(cbs))
+            if hit:
+                bad.append({"drain": m.term(d)["sp"], "callback_reached_without_recheck": m.term(hit[0])["sp"]})
+        nm = "poll_signal" if "poll_signal" in m.name else "poll_pending"
+        ctx.check(not bad, rid, "%s<%s>:recheck-closed-after-drain" % (nm, exf_of(m.name)), "%s never goes from a drain to the readiness callback without re-reading the closed flag" % nm,
+                  m.span, {"paths": bad, "why": "the drain may have eaten close()'s only wake-up byte: the consumer would block / park forever although is_closed() is true"})
+
+
 def run(ctx):
+    ctx.guarded("C11.e", rule_e)
     ctx.guarded("C11.a", rule_a)
     ctx.guarded("C11.b", rule_b)
     ctx.guarded("C11.c", rule_c)
